@@ -3,6 +3,8 @@ package c08
 import (
 	"encoding/json"
 	"fmt"
+	"regexp"
+	"strings"
 	"testing"
 
 	"pgregory.net/rapid"
@@ -30,6 +32,31 @@ var rec = hx.NewRecorder("C08",
 	"float values are multiples of 2^-10 below 2^21 and ints are within ±2^40 (main domain), so every sum is exact in float64 and == is used; integers beyond 2^53 form a separately signed sub-domain",
 	"a hang is reported only when the request goroutine is found blocked after 30 s; a still-running request is inconclusive",
 )
+
+var operandTokRe = regexp.MustCompile(`"(?:\\.|[^"\\])*"|-?\d+(?:\.\d+)?|null|true|false|[A-Za-z_][A-Za-z0-9_]*|[{}\[\]:,]`)
+
+// operandDiff counts the tokens in which two rendered filters differ; -1 when their shapes differ
+// (different length, or a difference in a field/operator name or punctuation).
+func operandDiff(a, b string) int {
+	ta, tb := operandTokRe.FindAllString(a, -1), operandTokRe.FindAllString(b, -1)
+	if len(ta) != len(tb) {
+		return -1
+	}
+	isOperand := func(s string) bool {
+		c := s[0]
+		return c == '"' || c == '-' || (c >= '0' && c <= '9') || s == "null" || s == "true" || s == "false"
+	}
+	d := 0
+	for i := range ta {
+		if ta[i] != tb[i] {
+			if !isOperand(ta[i]) || !isOperand(tb[i]) {
+				return -1
+			}
+			d++
+		}
+	}
+	return d
+}
 
 func evalLabels(c Case) []string {
 	l := []string{"eval"}
@@ -84,6 +111,48 @@ func evalLabels(c Case) []string {
 		}
 		if a.Sub.Filter != nil {
 			l = append(l, "agg:with-filter")
+		}
+	}
+	if q.Grouped {
+		// consumers of _group: the rendered selection and every aggregate
+		type consumer struct {
+			f       string
+			args    string
+			isCount bool
+		}
+		cons := []consumer{}
+		argsOf := func(s Sub, count bool) string {
+			if count {
+				s.Order = nil
+			}
+			s.Filter = nil
+			return strings.Join(s.args(), ",")
+		}
+		if q.Member != nil {
+			cons = append(cons, consumer{q.Member.Filter.gql(), argsOf(*q.Member, false), false})
+		}
+		for _, a := range q.Aggs {
+			cons = append(cons, consumer{a.Sub.Filter.gql(), argsOf(a.Sub, a.Fn == "_count"), a.Fn == "_count"})
+		}
+		almost, same := false, false
+		for i := range cons {
+			for j := i + 1; j < len(cons); j++ {
+				if cons[i].args != cons[j].args {
+					continue
+				}
+				switch d := operandDiff(cons[i].f, cons[j].f); {
+				case d == 0:
+					same = true
+				case d == 1:
+					almost = true
+				}
+			}
+		}
+		if almost {
+			l = append(l, "sibling-filters-differ-in-one-operand")
+		}
+		if same {
+			l = append(l, "sibling-filters-identical")
 		}
 	}
 	if c.Big {
